@@ -44,7 +44,11 @@ func VerifHarness_C05_node() {
 	subsets := [][]int{{0}, {1}, {0, 1}, {1, 2}, {2}}
 	nTx := 2
 	if verifrt.Thorough() {
+		// three transactions over four input sets: swapping the names of outpoints 0 and 2 maps a
+		// combination with {2} onto one without it, except those holding {0} and {2} together
+		// (left to the two-transaction tier); with all five the tier ran for an hour and a half
 		nTx = 3
+		subsets = subsets[:4]
 	}
 	type ent struct {
 		tx     *wire.MsgTx
